@@ -130,7 +130,14 @@ func (s *set[ElementType]) replace(elements ds.ReadableSet[ElementType]) (applie
 	s.readableSet.mutex.Lock()
 	defer s.readableSet.mutex.Unlock()
 
-	return ds.NewSetMutations[ElementType](elements.ToSlice()...).WithDeletedElements(s.value.Replace(elements)), s.uniqueUpdateID.Next(), s.updateCallbacks.Values()
+	// report the actual difference between the previous and the new elements (subscribers fold the reported mutations,
+	// so elements that are retained must neither show up as added nor as deleted)
+	addedElements := elements.Filter(func(element ElementType) bool { return !s.value.Has(element) })
+	removedElements := s.value.Filter(func(element ElementType) bool { return !elements.Has(element) })
+
+	s.value.Replace(elements)
+
+	return ds.NewSetMutations[ElementType]().WithAddedElements(addedElements).WithDeletedElements(removedElements), s.uniqueUpdateID.Next(), s.updateCallbacks.Values()
 }
 
 // endregion ///////////////////////////////////////////////////////////////////////////////////////////////////////////
